@@ -38,6 +38,7 @@ other calls run; that part is tied to the implementation by correspondence and s
 not interleaved (stated in each).
 -/
 import GeckoModel.Proofs.Lifecycle
+import GeckoModel.Proofs.LifecycleConc
 
 namespace GeckoModel.C08
 open GeckoModel.Lifecycle
@@ -251,108 +252,6 @@ theorem d7_full_fails : resetClearsFacadeFirst T = true →
 
 /-! ## every interleaving: a delivery always shows the sensor text of the state the client sees -/
 
-theorem exec_out_is_finish (env : Env) (m m' : M) (op : Op) (d : Delivered) (push : List Op)
-    (h : exec T env m op = .out m' d push) : ∃ e, op = .finish e ∧ execFinish T m e = .out m' d push := by
-  cases op with
-  | finish e => exact ⟨e, rfl, h⟩
-  | handle e => simp only [exec, execHandle] at h; repeat' split at h
-                all_goals cases h
-  | chain e => simp only [exec, execChain] at h; repeat' split at h
-               all_goals cases h
-  | act a =>
-      cases a <;> simp only [exec, execAct, execCreate, execWc] at h <;> (repeat' split at h) <;> cases h
-  | rstmt r => simp only [exec, execRStmt] at h; repeat' split at h
-               all_goals cases h
-  | rop o => cases o <;> simp only [exec, execROp] at h <;> cases h
-  | dop o => cases o <;> simp only [exec, execDOp] at h <;> cases h
-  | phase p => simp only [exec] at h; cases h
-  | enterTry p => simp only [exec] at h; cases h
-  | pop p =>
-      cases p <;> simp only [exec, execPOp, execDiscover, execBuild] at h <;> (repeat' split at h) <;> cases h
-  | fin ps => simp only [exec] at h; cases h
-  | reraise => simp only [exec] at h; cases h
-  | raiseNow => simp only [exec] at h; cases h
-  | cstep c => cases c <;> simp only [exec, execCStep] at h <;> (repeat' split at h) <;> cases h
-  | yield => simp only [exec] at h; cases h
-  | setInfo i n => simp only [exec] at h; cases h
-  | afterLocate => simp only [exec, execAfterLocate] at h; repeat' split at h
-                   all_goals cases h
-
-theorem finish_mirrors (m m' : M) (e : Event) (d : Delivered) (push : List Op)
-    (h : execFinish T m e = .out m' d push) : d.sensor = true → d.status = some d.state := by
-  simp only [execFinish] at h
-  injection h with _ hd _
-  subst hd
-  intro hs
-  by_cases hc : (m.sensor && T.touchBeforeDeliver) = true
-  · simp only [hc, if_true] at hs ⊢
-    cases m; rfl
-  · have ht : T.touchBeforeDeliver = true := by decide
-    simp only [hc] at hs
-    simp [ht] at hc
-    simp [hc] at hs
-
-def Mirrors (d : Delivered) : Prop := d.sensor = true → d.status = some d.state
-
-theorem unwind_go (c : Cfg) (op : Op) (ops : List Op) : ∃ c', unwind c op ops = .go c' ∧ c'.acc = c.acc := by
-  cases op <;> exact ⟨_, rfl, rfl⟩
-
-/-- one runner step either halts with the accumulated deliveries (plus at most one new one) or goes on with them -/
-theorem next1_acc (env : Env) (c : Cfg) (hacc : ∀ d ∈ c.acc, Mirrors d) :
-    match next1 T env c with
-    | .halt r => ∀ d ∈ r.out, Mirrors d
-    | .go c' => ∀ d ∈ c'.acc, Mirrors d := by
-  unfold next1
-  cases hops : c.ops with
-  | nil => simp only; intro d hd; exact hacc d (List.mem_reverse.1 hd)
-  | cons op ops =>
-      simp only
-      cases hr : c.raising with
-      | true =>
-          simp only [↓reduceIte]
-          obtain ⟨c', h1, h2⟩ := unwind_go c op ops
-          rw [h1]; simp only; rw [h2]; exact hacc
-      | false =>
-          simp only [Bool.false_eq_true, ↓reduceIte]
-          cases hex : exec T env c.m op with
-          | next m' push => simp only [applyRes]; exact hacc
-          | raise m' => simp only [applyRes]; exact hacc
-          | out m' d' push =>
-              obtain ⟨e, _, hf⟩ := exec_out_is_finish env c.m m' op d' push hex
-              have hm := finish_mirrors c.m m' e d' push hf
-              have hall : ∀ x ∈ d' :: c.acc, Mirrors x := by
-                intro x hx; rcases List.mem_cons.1 hx with rfl | hx
-                · exact hm
-                · exact hacc x hx
-              simp only [applyRes, suspend]
-              cases hs : c.stop with
-              | none => exact hall
-              | some k =>
-                  cases k with
-                  | zero => intro d hd; exact hall d (List.mem_reverse.1 hd)
-                  | succ k => exact hall
-          | pause m' push =>
-              simp only [applyRes, suspend]
-              cases hs : c.stop with
-              | none => exact hacc
-              | some k =>
-                  cases k with
-                  | zero => intro d hd; exact hacc d (List.mem_reverse.1 hd)
-                  | succ k => exact hacc
-
-theorem runCfg_mirrors (env : Env) : ∀ (fuel : Nat) (c : Cfg), (∀ d ∈ c.acc, Mirrors d) →
-    ∀ d ∈ (runCfg T env fuel c).out, Mirrors d := by
-  intro fuel
-  induction fuel with
-  | zero => intro c hacc d hd; simp only [runCfg, List.mem_reverse] at hd; exact hacc d hd
-  | succ n ih =>
-      intro c hacc
-      have h := next1_acc env c hacc
-      simp only [runCfg]
-      cases hn : next1 T env c with
-      | halt r => rw [hn] at h; exact h
-      | go c' => rw [hn] at h; exact ih c' h
-
 /-- **any interleaving** (calls parked at any delivery or await while others run, any number of tasks, any length):
 whenever the client is handed an event and the status sensor exists, its text is `to_string` of the state the client
 sees at that moment -/
@@ -377,7 +276,7 @@ theorem conc_delivery_mirrors (s : MState) (i : Input) : ∀ d ∈ (step T s i).
 
 /-! ## non-vacuity -/
 
-/-- the alphabet and the closed set are not trivial: 205 states, 6 of them CONNECTED, every connect path is a call -/
+/-- the alphabet and the closed set are not trivial (221 states for the shipped table, some of them CONNECTED; 19 connect paths) -/
 example : reachList.length ≥ 100 ∧ (reachList.filter fun m => m.state == .CONNECTED).length ≥ 1 ∧
     (allBase T).length ≥ 60 ∧ (allPaths T).length = 19 := by decide +kernel
 
